@@ -241,3 +241,194 @@ theorem C02.discr_dist_eq_norm_sub (close1 : ℝ → Bool) (u : Bool) (axes : Li
   cases w <;> cases p <;>
     simp only [Space.dist, Space.norm, El.sub, dDist, dNorm, tDist, tNorm] <;>
     split_ifs <;> simp only [sub_mul]
+
+/- FULL STATEMENT (not proved): absolute homogeneity `‖a·x‖ = |a| ‖x‖` for every space tree.
+Proved below for tensor spaces (all exponent branches, both weightings); the lifting through
+the boundary scaling of discretized spaces and through product nodes is missing. -/
+/-- Absolute homogeneity on tensor spaces, every exponent branch of the code (`2`, `inf`, `1`,
+generic `p > 0`) and both weighting kinds: `‖a·x‖ = |a| ‖x‖`. -/
+theorem C02.normP_smul_partial (close1 : ℝ → Bool) (n : Nat) (w : TW ℝ) (hw : twPos w n)
+    (p : Expo ℝ) (hp : ∀ q, p = .gen q → 0 < q) (a : 𝕜) (x : Nat → 𝕜) :
+    Space.norm (ops 𝕜) (roots close1) (.tens n w p) ((El.vec x).smul a) =
+      ‖a‖ * Space.norm (ops 𝕜) (roots close1) (.tens n w p) (.vec x) := by
+  have ha : 0 ≤ ‖a‖ := norm_nonneg a
+  have hS : ∀ f : Nat → ℝ, (∀ i, 0 ≤ f i) → 0 ≤ ∑ i ∈ range n, f i :=
+    fun f hf => Finset.sum_nonneg (fun i _ => hf i)
+  cases w with
+  | const c =>
+    cases p with
+    | two =>
+      simp only [Space.norm, El.smul, tNorm, vecNorm, sumTo_eq_sum, roots_sqrt, ops_abs, norm_mul]
+      have : ∑ i ∈ range n, ‖a‖ * ‖x i‖ * (‖a‖ * ‖x i‖) = ‖a‖ ^ 2 * ∑ i ∈ range n, ‖x i‖ * ‖x i‖ := by
+        rw [Finset.mul_sum]; exact Finset.sum_congr rfl (fun i _ => by ring)
+      rw [this, Real.sqrt_mul (sq_nonneg _), Real.sqrt_sq ha]; ring
+    | inf =>
+      simp only [Space.norm, El.smul, tNorm, vecNorm, ops_abs, norm_mul, maxTo_mul_left _ ha]; ring
+    | one =>
+      simp only [Space.norm, El.smul, tNorm, vecNorm, sumTo_eq_sum, ops_abs, norm_mul, ← Finset.mul_sum]
+      ring
+    | gen q =>
+      have hq := hp q rfl
+      simp only [Space.norm, El.smul, tNorm, vecNorm, sumTo_eq_sum, ops_abs, norm_mul, roots_rpow]
+      have : ∑ i ∈ range n, (‖a‖ * ‖x i‖) ^ q = ‖a‖ ^ q * ∑ i ∈ range n, ‖x i‖ ^ q := by
+        rw [Finset.mul_sum]
+        exact Finset.sum_congr rfl (fun i _ => Real.mul_rpow ha (norm_nonneg _))
+      rw [this, Real.mul_rpow (Real.rpow_nonneg ha _) (hS _ (fun i => Real.rpow_nonneg (norm_nonneg _) _)),
+        ← Real.rpow_mul ha, mul_one_div_cancel hq.ne', Real.rpow_one]
+      ring
+  | arr w =>
+    cases p with
+    | two =>
+      have e : ∀ y : Nat → 𝕜, RCLike.re (tInner (ops 𝕜) (.arr w) n y y) = ∑ i ∈ range n, ‖y i‖ ^ 2 * w i := by
+        intro y; rw [tInner_eq_wsum, wsum_self, RCLike.ofReal_re]; rfl
+      simp only [Space.norm, El.smul, tNorm, roots_sqrt, ops_re, e, norm_mul]
+      have h0 : 0 ≤ ∑ i ∈ range n, ‖x i‖ ^ 2 * w i :=
+        Finset.sum_nonneg (fun i hi => mul_nonneg (sq_nonneg _) (hw i (mem_range.mp hi)).le)
+      have : ∑ i ∈ range n, (‖a‖ * ‖x i‖) ^ 2 * w i = ‖a‖ ^ 2 * ∑ i ∈ range n, ‖x i‖ ^ 2 * w i := by
+        rw [Finset.mul_sum]; exact Finset.sum_congr rfl (fun i _ => by ring)
+      rw [this, max_eq_left h0, max_eq_left (mul_nonneg (sq_nonneg _) h0),
+        Real.sqrt_mul (sq_nonneg _), Real.sqrt_sq ha]
+    | inf =>
+      simp only [Space.norm, El.smul, tNorm, ops_abs, norm_mul, mul_assoc, maxTo_mul_left _ ha]
+    | one =>
+      simp only [Space.norm, El.smul, tNorm, sumTo_eq_sum, ops_abs, norm_mul, roots_rpow,
+        Real.rpow_one, div_one, mul_assoc, ← Finset.mul_sum]
+    | gen q =>
+      have hq := hp q rfl
+      simp only [Space.norm, El.smul, tNorm, sumTo_eq_sum, ops_abs, norm_mul, roots_rpow]
+      have h0 : 0 ≤ ∑ i ∈ range n, ‖x i‖ ^ q * w i :=
+        Finset.sum_nonneg (fun i hi => mul_nonneg (Real.rpow_nonneg (norm_nonneg _) _) (hw i (mem_range.mp hi)).le)
+      have : ∑ i ∈ range n, (‖a‖ * ‖x i‖) ^ q * w i = ‖a‖ ^ q * ∑ i ∈ range n, ‖x i‖ ^ q * w i := by
+        rw [Finset.mul_sum]
+        exact Finset.sum_congr rfl (fun i _ => by rw [Real.mul_rpow ha (norm_nonneg _)]; ring)
+      rw [this, Real.mul_rpow (Real.rpow_nonneg ha _) h0, ← Real.rpow_mul ha,
+        mul_one_div_cancel hq.ne', Real.rpow_one]
+
+/- FULL STATEMENT (not proved): `‖x + y‖ ≤ ‖x‖ + ‖y‖` for every space tree and every exponent
+`p ≥ 1`.  Proved below for tensor spaces and `p ∈ {1, 2, ∞}`; generic `p` (via Minkowski,
+`Real.Lp_add_le`) and the lifting to discretized / product spaces are missing. -/
+/-- Triangle inequality on tensor spaces for the exponents 1, 2 and ∞, both weighting kinds:
+`‖x + y‖ ≤ ‖x‖ + ‖y‖`. -/
+theorem C02.normP_triangle_partial (close1 : ℝ → Bool) (n : Nat) (w : TW ℝ) (hw : twPos w n)
+    (p : Expo ℝ) (hp : p = .one ∨ p = .two ∨ p = .inf) (x y : Nat → 𝕜) :
+    Space.norm (ops 𝕜) (roots close1) (.tens n w p) ((El.vec x).add (.vec y)) ≤
+      Space.norm (ops 𝕜) (roots close1) (.tens n w p) (.vec x) +
+        Space.norm (ops 𝕜) (roots close1) (.tens n w p) (.vec y) := by
+  cases w with
+  | const c =>
+    rcases Nat.eq_zero_or_pos n with rfl | hn
+    · rcases hp with rfl | rfl | rfl <;> simp [Space.norm, El.add, tNorm, vecNorm, sumTo, maxTo]
+    have hc : 0 < c := hw 0 hn
+    rcases hp with rfl | rfl | rfl
+    · simp only [Space.norm, El.add, tNorm, vecNorm, sumTo_eq_sum, ops_abs, roots_rpow, div_one,
+        Real.rpow_one, ← mul_add, ← Finset.sum_add_distrib]
+      exact mul_le_mul_of_nonneg_left (Finset.sum_le_sum (fun i _ => norm_add_le _ _)) hc.le
+    · simp only [Space.norm, El.add, tNorm, vecNorm, sumTo_eq_sum, ops_abs, roots_sqrt, ← mul_add]
+      refine mul_le_mul_of_nonneg_left ?_ (Real.sqrt_nonneg _)
+      have := l2_tri n (fun _ => 1) (fun _ _ => zero_le_one) x y
+      simpa [sq] using this
+    · simp only [Space.norm, El.add, tNorm, vecNorm, ops_abs, ← mul_add]
+      refine mul_le_mul_of_nonneg_left ?_ hc.le
+      exact (maxTo_mono n _ _ (fun i _ => norm_add_le _ _)).trans (maxTo_add_le n _ _)
+  | arr w =>
+    rcases hp with rfl | rfl | rfl
+    · simp only [Space.norm, El.add, tNorm, sumTo_eq_sum, ops_abs, roots_rpow, div_one,
+        Real.rpow_one, ← Finset.sum_add_distrib]
+      refine Finset.sum_le_sum (fun i hi => ?_)
+      rw [← add_mul]
+      exact mul_le_mul_of_nonneg_right (norm_add_le _ _) (hw i (mem_range.mp hi)).le
+    · have e : ∀ z : Nat → 𝕜, RCLike.re (tInner (ops 𝕜) (.arr w) n z z) = ∑ i ∈ range n, ‖z i‖ ^ 2 * w i := by
+        intro z; rw [tInner_eq_wsum, wsum_self, RCLike.ofReal_re]; rfl
+      have h0 : ∀ z : Nat → 𝕜, 0 ≤ ∑ i ∈ range n, ‖z i‖ ^ 2 * w i := fun z =>
+        Finset.sum_nonneg (fun i hi => mul_nonneg (sq_nonneg _) (hw i (mem_range.mp hi)).le)
+      simp only [Space.norm, El.add, tNorm, roots_sqrt, ops_re, e, max_eq_left (h0 _)]
+      exact l2_tri n w (fun i hi => (hw i hi).le) x y
+    · simp only [Space.norm, El.add, tNorm, ops_abs]
+      refine (maxTo_mono n _ _ (fun i hi => ?_)).trans (maxTo_add_le n _ _)
+      rw [← add_mul]
+      exact mul_le_mul_of_nonneg_right (norm_add_le _ _) (hw i hi).le
+
+/- FULL STATEMENT (not proved): `dist(x, y) = dist(y, x)` on every space tree.  Product nodes
+need `‖-z‖ = ‖z‖` through the tree (homogeneity lifting, see above). -/
+/-- `dist(x, y) = dist(y, x)` on tensor and discretized spaces, every exponent and weighting. -/
+theorem C02.dist_comm_partial (close1 : ℝ → Bool) (s : Space ℝ) (hs : ∀ m w p c, s ≠ .prod m w p c)
+    (x y : Nat → 𝕜) :
+    Space.dist (ops 𝕜) (roots close1) s (.vec x) (.vec y) =
+      Space.dist (ops 𝕜) (roots close1) s (.vec y) (.vec x) := by
+  have e : ∀ (w : Nat → ℝ) (n : Nat) (z : Nat → 𝕜),
+      RCLike.re (tInner (ops 𝕜) (.arr w) n z z) = ∑ i ∈ range n, ‖z i‖ ^ 2 * w i := by
+    intro w n z; rw [tInner_eq_wsum, wsum_self, RCLike.ofReal_re]; rfl
+  have hm : ∀ (a b f : 𝕜), ‖a * f - b * f‖ = ‖b * f - a * f‖ := fun a b f => norm_sub_rev _ _
+  cases s with
+  | prod m w p c => exact absurd rfl (hs m w p c)
+  | tens n w p =>
+    cases w <;> cases p <;>
+      simp only [Space.dist, tDist, tNorm, vecNorm, ops_abs, ops_re, e, norm_sub_rev (x _) (y _)]
+  | discr u axes w p =>
+    cases w <;> cases p <;>
+      simp only [Space.dist, dDist, tDist, tNorm, vecNorm, ops_abs, ops_re, e, hm,
+        norm_sub_rev (x _) (y _)]
+/-- Product spaces: `dist(x, y) = norm(x - y)`.  Array weighting: inherited
+`Weighting.dist`; constant weighting (own code on the component norms of `xₖ - yₖ`): exponents
+`1`, `∞`, generic `p`.  (Exponent 2 with constant weighting additionally needs
+`norm2_sq_eq_inner` on the components; not proved here.) -/
+theorem C02.pspace_dist_eq_norm_sub_partial (close1 : ℝ → Bool) (m : Nat) (w : PW ℝ) (p : Expo ℝ)
+    (hp : (∃ a, w = .arr a) ∨ p ≠ .two) (comp : Nat → Space ℝ) (xs ys : Nat → El 𝕜) :
+    Space.dist (ops 𝕜) (roots close1) (.prod m w p comp) (.tup xs) (.tup ys) =
+      Space.norm (ops 𝕜) (roots close1) (.prod m w p comp) ((El.tup xs).sub (.tup ys)) := by
+  cases w with
+  | arr a => simp only [Space.dist]
+  | const c =>
+    have hp' : p ≠ .two := by
+      rcases hp with ⟨a, ha⟩ | h
+      · cases ha
+      · exact h
+    cases p with
+    | two => exact absurd rfl hp'
+    | one => simp [Space.dist, Space.norm, El.sub, pDistConst, pNorm]
+    | inf => simp [Space.dist, Space.norm, El.sub, pDistConst, pNorm]
+    | gen q => simp [Space.dist, Space.norm, El.sub, pDistConst, pNorm]
+/-- Product spaces, exponent `p ∉ {1, 2, ∞}`: the norm is the (weighted) p-norm of the component
+norms, `c^{1/p} (Σₖ |‖xₖ‖|^p)^{1/p}` resp. `(Σₖ |‖xₖ‖ wₖ^{1/p}|^p)^{1/p}`; exponent `∞`:
+`c · maxₖ |‖xₖ‖|` resp. `maxₖ |‖xₖ‖ wₖ|` (the maximum starts from 0). -/
+theorem C02.pspace_norm_eq_norm_of_norms (close1 : ℝ → Bool) (m : Nat) (q : ℝ)
+    (comp : Nat → Space ℝ) (xs : Nat → El 𝕜) (c : ℝ) (w : Nat → ℝ) :
+    let nr := fun k => Space.norm (ops 𝕜) (roots close1) (comp k) (xs k)
+    Space.norm (ops 𝕜) (roots close1) (.prod m (.const c) (.gen q) comp) (.tup xs) =
+        c ^ (1 / q) * (∑ k ∈ range m, |nr k| ^ q) ^ (1 / q) ∧
+    Space.norm (ops 𝕜) (roots close1) (.prod m (.arr w) (.gen q) comp) (.tup xs) =
+        (∑ k ∈ range m, |nr k * w k ^ (1 / q)| ^ q) ^ (1 / q) ∧
+    Space.norm (ops 𝕜) (roots close1) (.prod m (.const c) .inf comp) (.tup xs) =
+        c * maxTo m (fun k => |nr k|) ∧
+    Space.norm (ops 𝕜) (roots close1) (.prod m (.arr w) .inf comp) (.tup xs) =
+        maxTo m (fun k => |nr k * w k|) := by
+  simp [Space.norm, pNorm, vecNorm, sumTo_eq_sum]
+
+/-! ### non-vacuity: the hypotheses are satisfiable on concrete non-trivial instances -/
+
+/-- positive weights / shaped elements: an array-weighted product of a constant-weighted tensor
+space and a discretized space with nodes on the boundary -/
+example : SpacePos exSpace ∧ Shaped exSpace exEl ∧ expoOf exSpace = .two :=
+  ⟨exSpace_pos, exEl_shaped, rfl⟩
+
+/-- on that instance `⟨x, x⟩` is not zero (the theorems are not about a trivial form) -/
+example : Space.inner (ops ℝ) (fun _ => false) exSpace exEl exEl ≠ 0 := by
+  intro h0
+  have h := (C02.inner_self_eq_zero _ _ exSpace_pos _ exEl_shaped).mp h0
+  have := h 0 (by norm_num)
+  simp only [exSpace, exEl, ↓reduceIte, ZeroOn] at this
+  have := this 0 (by norm_num)
+  norm_num at this
+
+open Classical in
+/-- hypotheses of `discr_one_inner_eq_volume_partial`: `uniform_discr(0, 1, 3,
+nodes_on_bdry=(True, False))`, cell volume 2/5 ≠ 1 -/
+example : Ideal (fun r => decide (r = 1)) ∧
+    (∀ s ∈ [(⟨0, 1, 3, true, false⟩ : AxSpec ℝ)], s.a < s.b ∧ 1 ≤ s.n) ∧
+    (fun r => decide (r = 1)) (cellVolume [⟨0, 1, 3, true, false⟩]) = false := by
+  refine ⟨fun r h => by simpa using h, fun s hs => ?_, ?_⟩
+  · simp only [List.mem_singleton] at hs; subst hs; norm_num
+  · norm_num [cellVolume, mkAxis, gridEnds, prodL]
+
+/-- hypotheses of the tensor-space norm theorems: weights `(1, 2, 3)` -/
+example : twPos (.arr fun i => (i : ℝ) + 1) 3 := fun i _ => by simp only [twFn]; positivity
